@@ -84,6 +84,24 @@ func TestVerifGlueConformance(t *testing.T) {
 			}()
 			st := mir.Apply(e)
 			res.Entries++
+			if perr != nil && os.Getenv("VERIF_GLUE_PROP") == "C06" {
+				// C06: the entry panics in the real state-machine glue of statemachine.go (whatever the mirror does)
+				msg := fmt.Sprint(perr)
+				if len(msg) > 80 {
+					msg = msg[:80]
+				}
+				sig := fmt.Sprintf("C06:panic while applying a %s entry through the glue of statemachine.go (%s)", e.Type, msg)
+				dup := false
+				for _, v := range res.Violations {
+					if v.Sig == sig {
+						v.Count++
+						dup = true
+					}
+				}
+				if !dup {
+					res.Violations = append(res.Violations, &ircserver.VViolation{Sig: sig, Desc: fmt.Sprintf("scenario %s, entry %s: %v", sc.Name, e.String(), perr), Scenario: sc.Name, Hist: append(append([]ircserver.VEntry(nil), sc.Hist...), e), Count: 1, Prop: "C06glue"})
+				}
+			}
 			if (perr != nil) != (st.Panic != nil) {
 				report(sc.Name, append(append([]ircserver.VEntry(nil), sc.Hist...), e), fmt.Sprintf("panic behaviour differs: real=%v mirror=%v", perr, st.Panic))
 			}
